@@ -337,10 +337,13 @@ inductive Chk where
   | cmpBig (op : CmpOp) (b : Int)     -- a BigInt schema's Gt/Gte/Lt/Lte with a `*big.Int` bound
   deriving Repr, Inhabited
 
-/-- The bound check of a BigInt schema: `checks.Gt(n)` is `validate.Gt(value, n)` with two
-    `*big.Int`; `toNum` holds neither, so `compareNumeric` sends both through `coerce.ToFloat64`
-    (`bigIntToFloat64`: the nearest float64, an error beyond MaxFloat64 — then the check is false)
-    and compares the floats. -/
+/-- The bound check of a BigInt schema after `fix: compare and divide big integers exactly`:
+    `validate.Gt(value, n)` on two `*big.Int` is `big.Int.Cmp`. -/
+def bigCmpExact (op : CmpOp) (v b : Int) : Bool := op.holdsInt v b
+
+/-- Before that fix: both operands through `coerce.ToFloat64` (`bigIntToFloat64`: the nearest
+    float64, an error beyond MaxFloat64 — then the check is false), floats compared.  Kept so
+    that the defect stays a theorem (`legacy_bigint_check_witness`). -/
 def bigCmpViaFloat (op : CmpOp) (v b : Int) : Bool :=
   match finOrOverflow (bigToF64 v), finOrOverflow (bigToF64 b) with
   | .ok x, .ok y => (match F.cmp x y with
@@ -368,7 +371,7 @@ def Chk.holds (t : Tgt) (c : Chk) (v : Val) : Bool :=
     | .str bs => decide (bs.length ≤ n)
     | _ => true
   | .cmpBig op b => match t, v with
-    | .big, .int n => bigCmpViaFloat op n b
+    | .big, .int n => bigCmpExact op n b
     | _, _ => true
 
 /-- The non-coercing schema on a value that already has the schema's type. -/
